@@ -59,6 +59,21 @@ CLAIMS = {
         "socket readers.",
    note="Bounds: tags {1,31,32,8191} x flags x payloads, nodes with <=2 children, depth 2 in thorough; header cases tags x lengths {0..65537}; two-child sizes around 65535; 256 first bytes x all second bytes in TLC (5 sampled in replay). Defect F-C09-1 fixed.",
    technique="TLC-checked TLA+ codec specification; exhaustive TLC-generated case tables replayed into the three libksi codecs"),
+ "C01": dict(level="model_checking", design_ref="DESIGN.md 4/C01",
+   text="Signature.tla states internal consistency twice: declaratively (the KSI conditions, each with its documented code, Allowed verdict sets) and "
+        "operationally (the internal rule tree of policy.c as data, evaluated with the documented AND/OR semantics, each rule's outcome a function of the "
+        "violated conditions); TLC proves Verdict in Allowed and Verdict = OK <=> Consistent on every case (1-3 chains x calendar x publication/authentication "
+        "record, every applicable single violation with position, pairs, 36 metadata-padding forms, document/level contexts). Each case is concretised "
+        "constructively on top of the independent reference aggregator (downstream values recomputed so no other condition breaks) several times with random "
+        "link mixes and verified by libksi; the real verdict must lie in the spec's Allowed set.",
+   note="Not generated: RFC3161 records (INT-14, INT-17, legacy INT-01) and INT-16 (no supported algorithm is obsolete); byte-level mutations are C09/C10/C12's. Non-shortest TLV forms inside hashed metadata are outside the compared domain (only 'never OK' is demanded). Trusted: TLC, hashlib, tools/ksi.py, tools/sigcase.py.",
+   technique="TLC-checked equivalence of declarative conditions and the rule tree + replay of all TLC cases (constructively concretised) into libksi"),
+ "C02": dict(level="model_checking", design_ref="DESIGN.md 4/C02",
+   text="The document conditions of Signature.tla (GEN-01 other digest, GEN-04 other algorithm, GEN-03 level above the first correction, level > 255 refused) are "
+        "part of the TLC-checked rule-tree/declarative equivalence; every document x level context of the case table, all 256 single-bit flips of a digest and 12 "
+        "levels from 256 to 2^64-1 are verified by libksi under the internal policy; the verdict must lie in Allowed (never OK).",
+   note="The five anchor-based verifying policies are exercised with document contexts by C04's environment once built; until then C02 binds the internal policy only.",
+   technique="TLC-checked rule-tree model + exhaustive context table and bit-flip enumeration replayed into libksi"),
 }
 for e in ENGINES:
     e["serves_properties"] = sorted(CLAIMS)
